@@ -3,7 +3,7 @@
 //! `p_nested_iter <exf o|r> <outer p|w|f> <pre> [konly]`
 //!   exf   o = SignalOnly, r = WithRawSiginfo
 //!   outer p = drain `pending()`, w = drain `wait()` (needs a pre delivery), f = `forever().next()`
-//!           (one item; needs a pre delivery)
+//!           (one item; needs a pre delivery), a = `add_signal(SIGUSR2)` with SIGUSR2 delivered at the boundary, d = `drop(instance)`
 //!   pre   deliveries made before the outer call: a string over {s, t} (s = SIGUSR1, t = SIGUSR2)
 //!
 //! The outer call is single-stepped (x86 trap flag).  At EVERY trap the process forks: the child
@@ -47,6 +47,9 @@ static KONLY: AtomicUsize = AtomicUsize::new(0);
 static ARMED: AtomicBool = AtomicBool::new(false);
 static IS_CHILD: AtomicBool = AtomicBool::new(false);
 static INNER_SEQ: AtomicUsize = AtomicUsize::new(0);
+static INNER_SIG: AtomicUsize = AtomicUsize::new(libc::SIGUSR1 as usize);
+// did the delivery made in the child write a wake-up byte into this instance's self-pipe?
+static INNER_WOKE: AtomicBool = AtomicBool::new(false);
 static CHILD_K: AtomicUsize = AtomicUsize::new(0);
 // children that died (blocked or crashed): after 12 of them the rest of the sweep is skipped - the
 // point is made and every blocked child costs its alarm
@@ -100,7 +103,8 @@ extern "C" fn on_trap(_sig: libc::c_int, _info: *mut libc::siginfo_t, ctx: *mut 
         CHILD_K.store(step, Ordering::Relaxed);
         ARMED.store(false, Ordering::Relaxed);
         unsafe { libc::alarm(3) };
-        queue(S, INNER_SEQ.load(Ordering::Relaxed));
+        queue(INNER_SIG.load(Ordering::Relaxed) as i32, INNER_SEQ.load(Ordering::Relaxed));
+        INNER_WOKE.store(pipe_bytes() > before, Ordering::Relaxed);
         let uc = ctx as *mut libc::ucontext_t;
         unsafe { (*uc).uc_mcontext.gregs[libc::REG_EFL as usize] &= !TF };
     } else if pid > 0 {
@@ -352,6 +356,141 @@ where
     out(&format!("E {}\n", STEP.load(Ordering::Relaxed)));
 }
 
+/// `add_signal(SIGUSR2)` single-stepped on an instance that watches SIGUSR1; SIGUSR2 already has the library's
+/// handler (a flag is registered for it), so a delivery of it is harmless at any instant.  The child delivers
+/// SIGUSR2 at the boundary: from the instant this instance's action runs for it (it writes the wake-up byte) the
+/// delivery must come out; a delivery after add_signal returned must come out exactly once.
+fn sweep_add<E>(exf: E, raw: bool)
+where
+    E: Exfiltrator,
+    E::Output: Item,
+{
+    let flag = std::sync::Arc::new(std::sync::atomic::AtomicBool::new(false));
+    signal_hook::flag::register(T, flag.clone()).unwrap();
+    let fds0 = open_fds();
+    let mut signals = SignalsInfo::with_exfiltrator(&[S], exf).unwrap();
+    let new: Vec<i32> = open_fds().into_iter().filter(|fd| !fds0.contains(fd)).collect();
+    assert_eq!(new.len(), 2, "the instance opened {:?}", new);
+    READ_FD.store(new[0] as usize, Ordering::Relaxed);
+    WRITE_FD.store(new[1] as usize, Ordering::Relaxed);
+    INNER_SIG.store(T as usize, Ordering::Relaxed);
+    INNER_SEQ.store(1, Ordering::Relaxed);
+    STEP.store(0, Ordering::Relaxed);
+    ARMED.store(true, Ordering::Relaxed);
+    unsafe { trap_flag_on() };
+    let r = signals.add_signal(T);
+    unsafe { trap_flag_off() };
+    ARMED.store(false, Ordering::Relaxed);
+    let child = IS_CHILD.load(Ordering::Relaxed);
+    let k = if child { CHILD_K.load(Ordering::Relaxed) } else { STEP.load(Ordering::Relaxed) + 1 };
+    let woke = if child {
+        INNER_WOKE.load(Ordering::Relaxed)
+    } else {
+        unsafe { libc::alarm(3) };
+        let before = pipe_bytes();
+        queue(T, 1);
+        pipe_bytes() > before
+    };
+    let mut bad: Vec<String> = Vec::new();
+    if r.is_err() {
+        bad.push("RESULT add_signal returned an error".to_string());
+    }
+    let mut got: Got = Vec::new();
+    if woke {
+        for x in signals.wait() {
+            got.push(x.describe());
+        }
+    }
+    for x in signals.pending() {
+        got.push(x.describe());
+    }
+    let is_inner = |e: &(i32, Option<(i32, i32, usize)>)| e.0 == T && (!raw || e.1.map(|x| x.2) == Some(1));
+    let n_inner = got.iter().filter(|e| is_inner(e)).count();
+    if woke && n_inner == 0 {
+        bad.push("LOST the delivery of SIGUSR2 ran this instance's action (its wake-up byte was written) but was not reported".to_string());
+    }
+    if !woke && n_inner > 0 {
+        bad.push("LOST the delivery of SIGUSR2 was stored for this instance but no wake-up byte was written for it".to_string());
+    }
+    if n_inner > 1 || got.iter().any(|e| e.0 != T) {
+        bad.push(format!("EXTRA after one delivery of SIGUSR2 the iterator yielded{}", show(&got)));
+    }
+    // a delivery after add_signal has returned
+    queue(T, 2);
+    let mut later: Got = Vec::new();
+    for x in signals.wait() {
+        later.push(x.describe());
+    }
+    for x in signals.pending() {
+        later.push(x.describe());
+    }
+    let n_later = later.iter().filter(|e| e.0 == T && (!raw || e.1.map(|x| x.2) == Some(2))).count();
+    if n_later == 0 {
+        bad.push("LOST a delivery of SIGUSR2 after add_signal returned was not reported".to_string());
+    }
+    if n_later > 1 || later.iter().any(|e| e.0 != T) || (raw && later.len() != n_later) {
+        bad.push(format!("EXTRA after a later delivery of SIGUSR2 the iterator yielded{}", show(&later)));
+    }
+    let line = format!("K {} {} | woke {} got{} | later{}\n", k, if bad.is_empty() { "OK".to_string() } else { format!("BAD {}", bad.join("; ")) },
+                       woke as i32, show(&got), show(&later));
+    out(&line);
+    if child {
+        unsafe { libc::_exit(0) };
+    }
+    out(&format!("E {}\n", STEP.load(Ordering::Relaxed)));
+}
+
+/// `drop(instance)` single-stepped (C12: once the instance and all its handles are gone every registration is
+/// removed and its pipe closed), SIGUSR1 - which keeps the library's handler through a flag - delivered at the
+/// boundary.  Afterwards a delivery must not reach the dropped instance (no byte on a duplicate of its read end)
+/// and both descriptors of the instance must be closed.
+fn sweep_drop<E>(exf: E)
+where
+    E: Exfiltrator,
+    E::Output: Item,
+{
+    let flag = std::sync::Arc::new(std::sync::atomic::AtomicBool::new(false));
+    signal_hook::flag::register(S, flag.clone()).unwrap();
+    let fds0 = open_fds();
+    let signals = SignalsInfo::with_exfiltrator(&[S], exf).unwrap();
+    let new: Vec<i32> = open_fds().into_iter().filter(|fd| !fds0.contains(fd)).collect();
+    assert_eq!(new.len(), 2, "the instance opened {:?}", new);
+    let dup_r = unsafe { libc::dup(new[0]) };
+    READ_FD.store(dup_r as usize, Ordering::Relaxed);
+    WRITE_FD.store(new[1] as usize, Ordering::Relaxed);
+    INNER_SEQ.store(1, Ordering::Relaxed);
+    STEP.store(0, Ordering::Relaxed);
+    ARMED.store(true, Ordering::Relaxed);
+    unsafe { trap_flag_on() };
+    drop(signals);
+    unsafe { trap_flag_off() };
+    ARMED.store(false, Ordering::Relaxed);
+    let child = IS_CHILD.load(Ordering::Relaxed);
+    let k = if child { CHILD_K.load(Ordering::Relaxed) } else { STEP.load(Ordering::Relaxed) + 1 };
+    let mut bad: Vec<String> = Vec::new();
+    // whatever the delivery at the boundary left in the pipe is taken out first
+    let mut buf = [0u8; 64];
+    while unsafe { libc::recv(dup_r, buf.as_mut_ptr() as *mut libc::c_void, buf.len(), libc::MSG_DONTWAIT) } > 0 {}
+    unsafe { libc::alarm(3) };
+    queue(S, 2);
+    let n = unsafe { libc::recv(dup_r, buf.as_mut_ptr() as *mut libc::c_void, buf.len(), libc::MSG_DONTWAIT) };
+    let e = std::io::Error::last_os_error().raw_os_error().unwrap_or(0);
+    if n > 0 {
+        bad.push(format!("SURVIVED a delivery after the instance was dropped still wrote {} wake-up byte(s) into its pipe", n));
+    }
+    // (end of file on the duplicate cannot be expected here: the stopped parent process still holds the socket open;
+    // what must hold in this process is that both descriptors of the instance are closed)
+    let left: Vec<i32> = open_fds().into_iter().filter(|fd| !fds0.contains(fd) && *fd != dup_r).collect();
+    if !left.is_empty() {
+        bad.push(format!("OPEN descriptors {:?} of the instance are still open", left));
+    }
+    out(&format!("K {} {} | recv after drop {} errno {}\n", k, if bad.is_empty() { "OK".to_string() } else { format!("BAD {}", bad.join("; ")) }, n, if n < 0 { e } else { 0 }));
+    if child {
+        unsafe { libc::_exit(0) };
+    }
+    out(&format!("E {}\n", STEP.load(Ordering::Relaxed)));
+}
+
 fn main() {
     let a: Vec<String> = std::env::args().collect();
     if a.len() < 4 {
@@ -375,6 +514,14 @@ fn main() {
         assert_eq!(0, libc::sigaction(libc::SIGTRAP, &sa, ptr::null_mut()));
     }
     let pre = if a[3] == "-" { "" } else { a[3].as_str() };
+    if a[2] == "d" {
+        if a[1] == "r" { sweep_drop(WithRawSiginfo::default()) } else { sweep_drop(SignalOnly::default()) }
+        return;
+    }
+    if a[2] == "a" {
+        if a[1] == "r" { sweep_add(WithRawSiginfo::default(), true) } else { sweep_add(SignalOnly::default(), false) }
+        return;
+    }
     if a[1] == "r" {
         sweep(WithRawSiginfo::default(), &a[2], pre, true);
     } else {
